@@ -1,12 +1,18 @@
 #!/bin/bash
-# usage: tools/mut.sh <ID> <file-relative-to-/repo> <sed-expression> [extra check args]
-# applies a one-line mutation to /repo, runs the quick check, reverts. Development aid only.
+# usage: tools/mut.sh <ID> <file-relative-to-repo> <sed-expression> [extra check args]
+# Development aid: applies a one-line mutation in a scratch worktree of /repo
+# (default /tmp/wt-$USER-mut, override with MUT_WT), runs the quick check against
+# it via VERIF_REPO, and reverts. /repo itself is never touched.
 set -u
 id=$1; file=$2; expr=$3; shift 3
-cd /repo || exit 2
-if ! git diff --quiet -- "$file"; then echo "file already dirty: $file"; exit 2; fi
+wt=${MUT_WT:-/tmp/wt-mut}
+if [ ! -d "$wt" ]; then git -C /repo worktree add --detach "$wt" HEAD >/dev/null 2>&1 || { echo "cannot create worktree $wt"; exit 2; }; fi
+cd "$wt" || exit 2
+git checkout -q --detach "$(git -C /repo rev-parse HEAD)" 2>/dev/null
+git checkout -- . 
 sed -i "$expr" "$file"
 if git diff --quiet -- "$file"; then echo "MUTATION DID NOT APPLY"; exit 2; fi
 git --no-pager diff -U0 -- "$file" | tail -n +5
-(cd /verif && ./check "$id" "$@" | grep -v "^built" | cut -c1-600 | tail -15; echo "rc=${PIPESTATUS[0]}")
+(cd /verif && VERIF_REPO="$wt" ./check "$id" "$@" | grep -v "^built" | cut -c1-700 | tail -12; echo "rc=${PIPESTATUS[0]}")
 git checkout -- "$file"
+rm -rf /verif/replays/"$id"
